@@ -222,3 +222,36 @@ def assert_repo_tskit():
 if __name__ == "__main__":
     for fl in sys.argv[1:] or ["plain"]:
         print(ensure(fl, verbose=True))
+
+
+def ensure_fuzz_target(repo=REPO):
+    """clang libFuzzer+ASan+UBSan build of vf/fuzz/load_target.c against the repo's C sources."""
+    src = os.path.join(VERIF, "vf", "fuzz", "load_target.c")
+    h = hashlib.sha256()
+    h.update(tree_hash(repo).encode())
+    with open(src, "rb") as f:
+        h.update(f.read())
+    out = os.path.join(CACHE, f"fuzz-{h.hexdigest()[:20]}")
+    exe = os.path.join(out, "load_target")
+    if os.path.exists(os.path.join(out, "DONE")):
+        return exe
+    os.makedirs(CACHE, exist_ok=True)
+    tmp = out + f".tmp{os.getpid()}"
+    shutil.rmtree(tmp, ignore_errors=True)
+    os.makedirs(tmp)
+    csrc = [os.path.join(repo, rel) for rel in C_SOURCES if not rel.startswith("python/")]
+    cmd = ["clang", "-g", "-O1", "-std=c99", "-D_GNU_SOURCE", "-w", "-fsanitize=fuzzer,address,undefined",
+           "-fno-sanitize-recover=undefined", "-fno-omit-frame-pointer",
+           "-I" + os.path.join(repo, "c"), "-I" + os.path.join(repo, "c/subprojects/kastore"),
+           src] + csrc + ["-lm", "-o", os.path.join(tmp, "load_target")]
+    r = subprocess.run(cmd, capture_output=True, text=True)
+    if r.returncode != 0:
+        raise RuntimeError("fuzz target build failed\n" + r.stderr[-4000:])
+    with open(os.path.join(tmp, "DONE"), "w") as f:
+        f.write("ok\n")
+    try:
+        os.rename(tmp, out)
+    except OSError:
+        shutil.rmtree(tmp, ignore_errors=True)
+    _prune("fuzz", keep=20)
+    return exe
